@@ -15,10 +15,11 @@
      C01_all_grammars  : generate_model ho d src = Ok text -> validate (tables of text) = true
                          (builder invariants; lifts the conclusions from every validated
                          grammar to every accepted grammar)
-     C01_terminates    : the loop also terminates on every non-sentence. *)
+     (termination on every input is proved from a checked certificate, C01_terminates below; the
+      check searches and re-checks the certificate for the real tables of every sampled grammar) *)
 From Coq Require Import List Arith.
 From Kiki Require Import Base.Ord Base.Chars Data LR.Driver LR.Grammar LR.Inv LR.Complete LR.Sound
-  LR.Validate LR.ValidateProofs LR.Payload.
+  LR.Validate LR.Term LR.ValidateProofs LR.Payload.
 Import ListNotations.
 
 Section C01.
@@ -40,6 +41,13 @@ Section C01.
   Theorem C01_every_sentence_is_accepted : forall t k,
     wf kind T (PN (pt_start_nt T)) t -> parse kind T (size t + S k) (yield t) = OAccept t.
   Proof. exact (validated_complete kind T ann ft Hv). Qed.
+
+  (* with a termination certificate (potential phi, constant K) accepted by term_check, the loop
+     stops on every input within K + phi(start) + |w| (K + max phi + 1) + 1 iterations *)
+  Theorem C01_terminates : forall K phi, term_check T ann K phi = true ->
+    forall w, Forall (fun p => kind p < pt_nterm T) w ->
+    parse kind T (K + ph phi (pt_start T) + length w * (K + M phi + 1) + 1) w <> OOutOfFuel.
+  Proof. exact (validated_terminates kind T ann ft Hv). Qed.
 End C01.
 
 Theorem C01_payloads_never_influence_acceptance :
@@ -51,3 +59,4 @@ Print Assumptions C01_never_panics.
 Print Assumptions C01_ok_only_for_sentences.
 Print Assumptions C01_every_sentence_is_accepted.
 Print Assumptions C01_payloads_never_influence_acceptance.
+Print Assumptions C01_terminates.
